@@ -35,7 +35,17 @@ pub enum RTarget {
 #[derive(Clone, Debug, Serialize, Deserialize)]
 pub enum REntry {
     Str,
+    /// the same text through from_multiple (its own snippet attachment)
+    StrMulti,
+    /// ... and through the string closure helper
+    WdStr,
     Reader { chunking: Chunking, faults: Vec<ReadFault> },
+}
+
+impl REntry {
+    pub fn is_string(&self) -> bool {
+        matches!(self, REntry::Str | REntry::StrMulti | REntry::WdStr)
+    }
 }
 
 #[derive(Clone, Debug, Serialize, Deserialize)]
@@ -168,6 +178,20 @@ fn parse(c: &RenderCase) -> Option<Result<(), serde_saphyr::Error>> {
                     Some(s) => guard(|| serde_saphyr::from_str_with_options::<$t>(s, opts).map(|_| ())).ok(),
                     None => guard(|| serde_saphyr::from_slice_with_options::<$t>(&c.doc.0, opts).map(|_| ())).ok(),
                 },
+                REntry::StrMulti => match c.doc.as_str() {
+                    Some(s) => guard(|| serde_saphyr::from_multiple_with_options::<$t>(s, opts).map(|_| ())).ok(),
+                    None => guard(|| serde_saphyr::from_slice_multiple_with_options::<$t>(&c.doc.0, opts).map(|_| ())).ok(),
+                },
+                REntry::WdStr => match c.doc.as_str() {
+                    Some(s) => guard(|| {
+                        serde_saphyr::with_deserializer_from_str_with_options(s, opts, |de| <$t as Deserialize>::deserialize(de).map(|_| ()))
+                    })
+                    .ok(),
+                    None => guard(|| {
+                        serde_saphyr::with_deserializer_from_slice_with_options(&c.doc.0, opts, |de| <$t as Deserialize>::deserialize(de).map(|_| ()))
+                    })
+                    .ok(),
+                },
                 REntry::Reader { chunking, faults } => {
                     let rd = SimReader::new(
                         &reader_bytes(c),
@@ -186,11 +210,19 @@ fn parse(c: &RenderCase) -> Option<Result<(), serde_saphyr::Error>> {
     if matches!(c.target, RTarget::GardeMap | RTarget::ValidatorList) {
         // validating entry points exist for string and reader input
         return match (&c.entry, c.target) {
-            (REntry::Str, RTarget::GardeMap) => {
+            (REntry::StrMulti, RTarget::GardeMap) => {
+                let s = c.doc.as_str()?;
+                guard(|| serde_saphyr::from_multiple_with_options_valid::<GardeMapDoc>(s, opts).map(|_| ())).ok()
+            }
+            (REntry::StrMulti, _) => {
+                let s = c.doc.as_str()?;
+                guard(|| serde_saphyr::from_multiple_with_options_validate::<ValidatorListDoc>(s, opts).map(|_| ())).ok()
+            }
+            (REntry::Str | REntry::WdStr, RTarget::GardeMap) => {
                 let s = c.doc.as_str()?;
                 guard(|| serde_saphyr::from_str_with_options_valid::<GardeMapDoc>(s, opts).map(|_| ())).ok()
             }
-            (REntry::Str, _) => {
+            (REntry::Str | REntry::WdStr, _) => {
                 let s = c.doc.as_str()?;
                 guard(|| serde_saphyr::from_str_with_options_validate::<ValidatorListDoc>(s, opts).map(|_| ())).ok()
             }
@@ -375,7 +407,7 @@ pub fn exec(c: &RenderCase, st: &mut Stats) -> Vec<Viol> {
     let text = text_owned.strip_prefix('\u{feff}').unwrap_or(&text_owned);
     let orig_lines: Vec<&str> = text.split('\n').map(|l| l.strip_suffix('\r').unwrap_or(l)).collect();
     let mut texts: Vec<(&str, String)> = rendered.texts.iter().map(|(n, t)| (*n, t.clone())).collect();
-    if c.doc.as_str().is_some() && matches!(c.entry, REntry::Str) {
+    if c.doc.as_str().is_some() && c.entry.is_string() {
         // the caller hands the adapter the text it parsed, byte-order mark included
         match lab::render_miette(&e, &text_owned) {
             Ok(t) => texts.push(("miette", t)),
@@ -462,7 +494,7 @@ pub fn exec(c: &RenderCase, st: &mut Stats) -> Vec<Viol> {
         }
         let blocks = parse_blocks(t);
         // (string input only: the reader's recent-bytes window may legitimately have moved past the line)
-        if blocks.is_empty() && has_snippet && *name != "snippet_off" && *name != "debug" && matches!(c.entry, REntry::Str) && c.radius > 0 {
+        if blocks.is_empty() && has_snippet && *name != "snippet_off" && *name != "debug" && c.entry.is_string() && c.radius > 0 {
             // the error carries a source window, yet this renderer shows no source line at all
             let line_exists = info.line > 0
                 && ((info.line as usize) < orig_lines.len()
@@ -883,7 +915,12 @@ pub fn gen_case(tier: Tier, seed: u64, idx: u64) -> Case {
         None => doc.as_bytes().to_vec(),
     };
     let entry = if member < 3 {
-        REntry::Str
+        // the three string entry points attach their snippets in separate places: rotate over the groups
+        match (group + member) % 3 {
+            0 => REntry::Str,
+            1 => REntry::StrMulti,
+            _ => REntry::WdStr,
+        }
     } else {
         let chunking = match member {
             3 => Chunking::Fixed(1),
